@@ -245,3 +245,10 @@ let vev_of = function
 let register_c18 reg =
   reg "runner_trace_ok" (function [n; tr] -> show_bool (runner_trace_ok (zv n) (L.map vev_of (lv tr))) | _ -> failwith "arity")
 let () = section register_c18
+
+(* ---- C02 / C03 / C04 *)
+let register_pool reg =
+  reg "c02_ok" (function [r; s; d; l; m] -> show_bool (c02_ok (zv r) (zv s) (zv d) (bv l) (zv m)) | _ -> failwith "arity");
+  reg "c03_ok" (function [ids; lim; e] -> show_bool (c03_ok (zlist ids) (zv lim) (bv e)) | _ -> failwith "arity");
+  reg "c04_ok" (function [h; c; sh; rv] -> show_bool (c04_ok (zv h) (zv c) (bv sh) (bv rv)) | _ -> failwith "arity")
+let () = section register_pool
